@@ -31,10 +31,11 @@ def binop(file, macro, k, name, Tr, m, A, B, C, comm, req, post, props, extra=""
     OPS.append(dict(file=file, macro=macro, k=k, name=name, Tr=Tr, m=m, A=A, B=B, C=C, comm=comm, req=req, post=post, props=props, extra=extra, body_start=body_start, before=before or [], after=after or []))
 
 
-WF1 = "dual_wf(*a)"
-WF2 = "dual2_wf(*a)"
-WF1B = "dual_wf(*a) && dual_wf(*b)"
-WF2B = "dual2_wf(*a) && dual2_wf(*b)"
+# shape invariants come from the type invariants of Dual / Dual2 (use_type_invariant at body start), not from preconditions
+WF1 = "true"
+WF2 = "true"
+WF1B = "true"
+WF2B = "true"
 
 def BR2(C):
     return [(C + " {", 0, "proof { assert(@POST@); }"), (C + " {", 1, "proof { assert(@POSTXY@); assert(@POST@); }")]
@@ -68,11 +69,11 @@ binop("add", "impl_op_ex", 1, "op_add_dual2_dual2", "Add", "add", "&Dual2", "&Du
 binop("sub", "impl_op_ex", 0, "op_sub_dual_f64", "Sub", "sub", "&Dual", "&R64", "Dual", False,
       WF1, f"un1_post(a, r, {X} - {YF}, 1real)", "C01")
 binop("sub", "impl_op_ex", 1, "op_sub_f64_dual", "Sub", "sub", "&R64", "&Dual", "Dual", False,
-      "dual_wf(*b)", f"un1_post(b, r, {XF} - {Y}, -1real)", "C01")
+      "true", f"un1_post(b, r, {XF} - {Y}, -1real)", "C01")
 binop("sub", "impl_op_ex", 2, "op_sub_dual2_f64", "Sub", "sub", "&Dual2", "&R64", "Dual2", False,
       WF2, f"un2_post(a, r, {X} - {YF}, 1real, 0real)", "C02")
 binop("sub", "impl_op_ex", 3, "op_sub_f64_dual2", "Sub", "sub", "&R64", "&Dual2", "Dual2", False,
-      "dual2_wf(*b)", f"un2_post(b, r, {XF} - {Y}, -1real, 0real)", "C02")
+      "true", f"un2_post(b, r, {XF} - {Y}, -1real, 0real)", "C02")
 binop("sub", "impl_op_ex", 4, "op_sub_dual_dual", "Sub", "sub", "&Dual", "&Dual", "Dual", False,
       WF1B, f"bin1_post(a, b, r, {X} - {Y}, 1real, -1real)", "C01 C03",
       body_start="proof { a.lemma_view_props(); b.lemma_view_props(); }", after=BR2("Dual"))
@@ -217,6 +218,8 @@ def emit_unary(o):
     ar = "a" if o['A'].startswith("&") else "&a"
     s.append(f"    requires {o['name']}_req({ar})\n")
     s.append(f"    ensures {o['name']}_post({ar}, &r)\n")
+    s.append("//@ body_start\n")
+    s.append(f"    proof {{ use_type_invariant({ar}); }}\n")
     s.append("//@ end\n")
     s.append(f"//@ forward1 {o['Tr']} {o['m']} {o['name']} {o['A']} {o['C']}\n\n")
     return "".join(s)
@@ -229,7 +232,7 @@ binop("div", "impl_op_ex", 0, "op_div_dual_f64", "Div", "div", "&Dual", "&R64", 
 binop("div", "impl_op_ex", 2, "op_div_dual2_f64", "Div", "div", "&Dual2", "&R64", "Dual2", False,
       f"{WF2} && {YF} != 0real", f"un2_post(a, r, {X} / {YF}, 1real / {YF}, 0real)", "C02")
 binop("div", "impl_op_ex", 1, "op_div_f64_dual", "Div", "div", "&R64", "&Dual", "Dual", False,
-      f"dual_wf(*b) && {Y} != 0real", f"un1_post(b, r, {XF} / {Y}, -{XF} / ({Y} * {Y}))", "C01",
+      f"{Y} != 0real", f"un1_post(b, r, {XF} / {Y}, -{XF} / ({Y} * {Y}))", "C01",
       body_start="proof { b.lemma_view_props(); axiom_pow_small(b.real@); }",
       after=[("a * b.clone().pow", 0, "proof { let y = b.real@; let x = a@; assert(y * y != 0real) by(nonlinear_arith) requires y != 0real; alg_mul_recip(x, y); alg_comm(1real / y, x); alg_mul_recip(x, y * y); alg_neg_recip(x, y * y); assert forall|n: String| #[trigger] vx_tail.s_grad(n) == (-x / (y * y)) * b.s_grad(n) by { alg_scale_neg(x, 1real / (y * y), b.s_grad(n)); } }")])
 binop("div", "impl_op_ex", 4, "op_div_dual_dual", "Div", "div", "&Dual", "&Dual", "Dual", False,
@@ -238,7 +241,7 @@ binop("div", "impl_op_ex", 4, "op_div_dual_dual", "Div", "div", "&Dual", "&Dual"
       after=[("a * b_", 0, "proof { let y = b.real@; let x = a.real@; alg_mul_recip(x, y); alg_mul_recip(x, y * y); alg_neg_recip(x, y * y); assert forall|n: String| #[trigger] vx_tail.s_grad(n) == (1real / y) * a.s_grad(n) + (-x / (y * y)) * b.s_grad(n) by { assert(b_.s_grad(n) == (-1real / (y * y)) * b.s_grad(n)); alg_scale_neg2(x, 1real / (y * y), b.s_grad(n)); } }")])
 
 binop("div", "impl_op_ex", 3, "op_div_f64_dual2", "Div", "div", "&R64", "&Dual2", "Dual2", False,
-      f"dual2_wf(*b) && {Y} != 0real", f"un2_post(b, r, {XF} / {Y}, -{XF} / ({Y} * {Y}), 2real * {XF} / ({Y} * {Y} * {Y}))", "C02",
+      f"{Y} != 0real", f"un2_post(b, r, {XF} / {Y}, -{XF} / ({Y} * {Y}), 2real * {XF} / ({Y} * {Y} * {Y}))", "C02",
       body_start="proof { b.lemma_view_props(); axiom_pow_small(b.real@); }",
       after=[("a * b.clone().pow", 0, "proof { let y = b.real@; let x = a@; assert(y * y != 0real) by(nonlinear_arith) requires y != 0real; assert(y * y * y != 0real) by(nonlinear_arith) requires y != 0real; let t2 = 1real / (y * y); let t3 = 1real / (y * y * y); alg_mul_recip(x, y); alg_comm(1real / y, x); alg_mul_recip(x, y * y); alg_neg_recip(x, y * y); alg_mul_recip(2real * x, y * y * y); assert(2real * (x * t3) == (2real * x) * t3) by(nonlinear_arith); assert forall|n: String| #[trigger] vx_tail.s_grad(n) == (-x / (y * y)) * b.s_grad(n) by { alg_scale_neg(x, t2, b.s_grad(n)); } assert forall|n: String, k: String| #[trigger] vx_tail.s_hess(n, k) == (-x / (y * y)) * b.s_hess(n, k) + (2real * x / (y * y * y)) * b.s_grad(n) * b.s_grad(k) / 2real by { alg_div2_f64(x, b.s_hess(n, k), b.s_grad(n), b.s_grad(k), t2, t3); } }")])
 
@@ -262,17 +265,17 @@ binop("rem", "impl_op_ex", 5, "op_rem_dual2_dual2", "Rem", "rem", "&Dual2", "&Du
       body_start="proof { a.lemma_view_props(); b.lemma_view_props(); }",
       after=[("a - d * b", 0, "proof { let q = r_trunc(a.real@ / b.real@); alg_comm(b.real@, q); assert forall|n: String| #[trigger] vx_tail.s_grad(n) == 1real * a.s_grad(n) + (-q) * b.s_grad(n) by { alg_neg_mul(q, b.s_grad(n)); } assert forall|n: String, k: String| #[trigger] vx_tail.s_hess(n, k) == hess_rule(a.s_hess(n, k), b.s_hess(n, k), a.s_grad(n), a.s_grad(k), b.s_grad(n), b.s_grad(k), 1real, -q, 0real, 0real, 0real) by { alg_neg_mul(q, b.s_hess(n, k)); } }")])
 binop("rem", "impl_op_ex", 1, "op_rem_f64_dual", "Rem", "rem", "&R64", "&Dual", "Dual", False,
-      f"dual_wf(*b) && {Y} != 0real", f"un1set_post(b, r, r_rem({XF}, {Y}), -r_trunc({XF} / {Y}))", "C19",
+      f"{Y} != 0real", f"un1set_post(b, r, r_rem({XF}, {Y}), -r_trunc({XF} / {Y}))", "C19",
       body_start="proof { b.lemma_view_props(); lemma_dedup_props(Seq::<String>::empty()); }")
 binop("rem", "impl_op_ex", 3, "op_rem_f64_dual2", "Rem", "rem", "&R64", "&Dual2", "Dual2", False,
-      f"dual2_wf(*b) && {Y} != 0real", f"un2set_post(b, r, r_rem({XF}, {Y}), -r_trunc({XF} / {Y}), 0real)", "C19",
+      f"{Y} != 0real", f"un2set_post(b, r, r_rem({XF}, {Y}), -r_trunc({XF} / {Y}), 0real)", "C19",
       body_start="proof { b.lemma_view_props(); lemma_dedup_props(Seq::<String>::empty()); }")
 
 # ---- neg.rs
-unop("neg", "impl_op", 0, "op_neg_dual_owned", "Neg", "neg", "Dual", "Dual", "dual_wf(*a)", "un1_post(a, r, -a.real@, -1real)", "C01")
-unop("neg", "impl_op", 1, "op_neg_dual_ref", "Neg", "neg", "&Dual", "Dual", "dual_wf(*a)", "un1_post(a, r, -a.real@, -1real)", "C01")
-unop("neg", "impl_op", 2, "op_neg_dual2_owned", "Neg", "neg", "Dual2", "Dual2", "dual2_wf(*a)", "un2_post(a, r, -a.real@, -1real, 0real)", "C02")
-unop("neg", "impl_op", 3, "op_neg_dual2_ref", "Neg", "neg", "&Dual2", "Dual2", "dual2_wf(*a)", "un2_post(a, r, -a.real@, -1real, 0real)", "C02")
+unop("neg", "impl_op", 0, "op_neg_dual_owned", "Neg", "neg", "Dual", "Dual", "true", "un1_post(a, r, -a.real@, -1real)", "C01")
+unop("neg", "impl_op", 1, "op_neg_dual_ref", "Neg", "neg", "&Dual", "Dual", "true", "un1_post(a, r, -a.real@, -1real)", "C01")
+unop("neg", "impl_op", 2, "op_neg_dual2_owned", "Neg", "neg", "Dual2", "Dual2", "true", "un2_post(a, r, -a.real@, -1real, 0real)", "C02")
+unop("neg", "impl_op", 3, "op_neg_dual2_ref", "Neg", "neg", "&Dual2", "Dual2", "true", "un2_post(a, r, -a.real@, -1real, 0real)", "C02")
 
 
 def emit(o):
@@ -292,6 +295,9 @@ def emit(o):
     s.append("//@ sig\n")
     s.append(f"    requires {o['name']}_req(a, b)\n")
     s.append(f"    ensures {o['name']}_post(a, b, &r)\n")
+    inv = "".join(f"use_type_invariant({v}); " for v, T in (("a", o["A"]), ("b", o["B"])) if T.lstrip("&") in ("Dual", "Dual2"))
+    s.append("//@ body_start\n")
+    s.append("    proof { " + inv + "}\n")
     if o["body_start"]:
         s.append("//@ body_start\n")
         s.append("    " + o["body_start"] + "\n")
